@@ -5,7 +5,7 @@
    so every theorem below holds for EVERY iteration order CPython may choose. *)
 From Coq Require Import ZArith List String Bool Permutation.
 From Model Require Import PyBase Graph Morgan Compose RxnSmiles CgrMorgan.
-From Proofs Require Import ComposeProofs RxnComposeProofs RxnSmilesProofs RxnCxProofs RxnEqProofs CgrMorganProofs.
+From Proofs Require Import ComposeProofs RxnComposeProofs RxnSmilesProofs RxnCxProofs RxnEqProofs CgrMorganProofs CgrMorganOrderProofs.
 Import ListNotations.
 Open Scope Z_scope.
 
@@ -196,6 +196,28 @@ Theorem C15_compose_rank_equivariant : forall h s r p o1 o2 o3 c,
   rank_of (order_of h (compose_ord (map s o1) (map s o2) (map s o3) (rename s r) (rename s p))) (s n) = rank_of (cgr_atoms_order h c) n.
 Proof. exact compose_rank_equivariant. Qed.
 Print Assumptions C15_compose_rank_equivariant.
+
+(* the ranks do not depend on the insertion orders of the dicts of the condensed graph ... *)
+Theorem C15_cgr_atoms_order_perm : forall h c c', wf_cgr c = true -> wf_cgr c' = true ->
+  (forall n, catom c n = catom c' n) -> (forall n m, cbond c n m = cbond c' n m) ->
+  res_perm (cgr_atoms_order h c) (cgr_atoms_order h c').
+Proof. exact cgr_atoms_order_perm. Qed.
+Print Assumptions C15_cgr_atoms_order_perm.
+
+(* ... in particular not on the iteration orders CPython chooses for the three sets compose walks: the same (atom, rank) pairs *)
+Theorem C15_compose_atoms_order_set_order_free : forall h r p o1 o2 o3 o1' o2' o3' c c',
+  wf_mol r = true -> wf_mol p = true -> orders_ok r p o1 o2 o3 -> orders_ok r p o1' o2' o3' ->
+  compose_ord o1 o2 o3 r p = Ok c -> compose_ord o1' o2' o3' r p = Ok c' ->
+  res_perm (cgr_atoms_order h c) (cgr_atoms_order h c').
+Proof. exact compose_atoms_order_set_order_free. Qed.
+Print Assumptions C15_compose_atoms_order_set_order_free.
+
+Theorem C15_compose_atoms_order_set_order_example :
+  exists c c', compose_ord [] [] [1; 2; 3] example_r example_p = Ok c /\ compose_ord [] [] [3; 1; 2] example_r example_p = Ok c' /\
+    keys (c_atoms c) = [1; 2; 3] /\ keys (c_atoms c') = [3; 1; 2] /\
+    z_cgr_atoms_order c = Ok [(3, 1); (2, 2); (1, 3)] /\ z_cgr_atoms_order c' = Ok [(3, 1); (2, 2); (1, 3)].
+Proof. exact compose_atoms_order_set_order_example. Qed.
+Print Assumptions C15_compose_atoms_order_set_order_example.
 
 Theorem C15_cgr_atoms_order_example :
   exists c, compose example_r example_p = Ok c /\
